@@ -322,12 +322,14 @@ def check_reporters(case, acc, tmpdir):
     bench = [xs[n - 1 - i] * (1.0 + 0.001 * i) * 1.7 for i in range(n)]     # a different curve on the same dates
     df3 = pd.DataFrame({'Equity': bench}, index=ds)
     df4 = pd.DataFrame({'Equity': bench}, index=ds)
+    periods = [252, 252, 52, 12, 1638][len(xs) % 5]        # the reporters take the annualisation factor as a parameter
     with np.errstate(all='ignore'):
-        ts_stats = TearsheetStatistics(strategy_equity=df1).get_results(df1)
-        ts_bench = TearsheetStatistics(strategy_equity=df4).get_results(df4)
+        ts_stats = TearsheetStatistics(strategy_equity=df1, periods=periods).get_results(df1)
+        ts_bench = TearsheetStatistics(strategy_equity=df4, periods=periods).get_results(df4)
         path = os.path.join(tmpdir, 'stats.json')
-        js = JSONStatistics(equity_curve=df2, target_allocations=alloc, periods=PERIODS, output_filename=path,
+        js = JSONStatistics(equity_curve=df2, target_allocations=alloc, periods=periods, output_filename=path,
                             benchmark_curve=df3)
+    acc.see('C17:periods_used', periods)
     st = js.statistics['strategy']
     # every block of the export describes ITS OWN curve
     for block, curve, tsb in (('strategy', xs, ts_stats), ('benchmark', bench, ts_bench)):
@@ -343,6 +345,14 @@ def check_reporters(case, acc, tmpdir):
             if not eqv(float(b[nm]), float(tsb[nm])):
                 V('reporters-disagree/%s/%s' % (block, nm), 'JSON %s.%s=%r, tearsheet of the same curve says %r'
                   % (block, nm, b[nm], tsb[nm]))
+        if not ill_conditioned(rl_b):
+            for nm, want in (('sharpe', d_sharpe(rl_b, periods)), ('sortino', d_sortino(rl_b, periods)),
+                             ('cagr', d_cagr([c_ / curve[0] for c_ in curve], periods))):
+                if nm == 'sortino' and ill_conditioned(rl_b, True):
+                    continue
+                if not same(b[nm], want, 1e-7, 1e-2):
+                    V('json-%s/%s' % (nm, block), 'JSON %s.%s = %r with periods=%d; the definition gives %r'
+                      % (block, nm, b[nm], periods, want))
         vals = [float(v[1]) for v in b['equity_curve']]
         if vals != [float(v) for v in curve]:
             V('json-equity/%s' % block, 'JSON %s.equity_curve is not the %s curve' % (block, block))
@@ -375,7 +385,7 @@ def check_reporters(case, acc, tmpdir):
         vals = [float(v[1]) for v in lst]
         if len(vals) != len(ser) or any(not eqv(a, b) for a, b in zip(ser, vals)):
             V('reporters-disagree/%s' % nm, 'tearsheet and JSON %s series differ' % nm)
-    if not same(st['cagr'], d_cagr(got_c), 1e-9, 1e-9):
+    if not same(st['cagr'], d_cagr(got_c, periods), 1e-9, 1e-9):
         V('cagr/json', 'JSON cagr %r, expected %r' % (st['cagr'], d_cagr(got_c)))
     # the file says the same as the statistics object
     js.to_file()
